@@ -150,6 +150,34 @@ func (w *World) newLeaf() H {
 		h[i] = byte(x >> (uint(i%8) * 8))
 	}
 	h[31] |= 1 // never the all-zero hash
+	if w.sc.OddHashes {
+		// unusual but legal values.  Exactly one leaf of the run starts with a long
+		// run of zero bytes and one with a long run of 0xff bytes (more than one each
+		// would share a 12-byte prefix, which is the known finding KF1, not the
+		// point here); a third of the others END with such a run.
+		oddA := uint32(1 + mix64(w.sc.Seed^0x0dd)%7)
+		oddB := oddA + 1 + uint32(mix64(w.sc.Seed^0x0de)%9)
+		k := 12 + int(mix64(uint64(c)^w.sc.Seed)%17) // 12..28 bytes
+		switch {
+		case c == oddA || c == oddB:
+			fill := byte(0)
+			if c == oddB {
+				fill = 0xff
+			}
+			for i := 0; i < k; i++ {
+				h[i] = fill
+			}
+			h[31] |= 1
+		case c%3 == 0:
+			fill := byte(0)
+			if c%2 == 0 {
+				fill = 0xff
+			}
+			for i := 32 - k; i < 32; i++ {
+				h[i] = fill
+			}
+		}
+	}
 	if w.sc.PrefixShare {
 		// distinct hashes that agree in a long prefix (still unique: the counter sits in the tail)
 		x := mix64(w.sc.Seed ^ 0x5ea1)
